@@ -23,6 +23,52 @@ def _calls(body, pred):
     return [(bb, t) for bb, t in body.calls() if pred(t["callee"])]
 
 
+def _cnum(a):
+    if "const" in a:
+        c = a["const"]
+        if "int" in c:
+            return int(c["int"])
+        if "float_bits" in c:
+            import struct
+            bits = int(c["float_bits"])
+            return struct.unpack("<d", struct.pack("<Q", bits))[0] if c.get("float_size") == 8 else struct.unpack("<f", struct.pack("<I", bits))[0]
+    return None
+
+
+def _duration_secs(du, op, facts, depth=0):
+    """seconds of a std::time::Duration operand built from constants (None = not a compile-time constant)"""
+    if depth > 4:
+        return None
+    r = du.root(op)
+    if r[0] == "const":
+        # a named `const PAUSE: Duration = ...` is not followed (would need const evaluation of a struct)
+        return None
+    if r[0] != "call":
+        return None
+    c = r[1]["callee"]
+    args = r[1]["args"]
+    unit = {"Duration::from_secs": 1.0, "Duration::from_millis": 1e-3, "Duration::from_micros": 1e-6, "Duration::from_nanos": 1e-9,
+            "Duration::from_secs_f64": 1.0, "Duration::from_secs_f32": 1.0, "Duration::from_mins": 60.0, "Duration::from_hours": 3600.0}
+    for k, u in unit.items():
+        if _path_is(c, k):
+            v = _cnum(args[0])
+            return None if v is None else v * u
+    if _path_is(c, "Duration::new") and len(args) == 2:
+        s_, n_ = _cnum(args[0]), _cnum(args[1])
+        return None if s_ is None or n_ is None else s_ + n_ * 1e-9
+    nm = c.get("name")
+    if nm in ("add", "saturating_add", "sub", "saturating_sub") and len(args) == 2 and "Duration" in (c.get("instance") or c.get("path") or ""):
+        x, y = _duration_secs(du, args[0], facts, depth + 1), _duration_secs(du, args[1], facts, depth + 1)
+        if x is None or y is None:
+            return None
+        return x + y if "add" in nm else max(0.0, x - y)
+    if nm in ("mul", "saturating_mul") and len(args) == 2 and "Duration" in (c.get("instance") or c.get("path") or ""):
+        x = _duration_secs(du, args[0], facts, depth + 1)
+        k = _cnum(args[1])
+        return None if x is None or k is None else x * k
+    return None
+
+
 def _path_is(c, *suffixes):
     p = c.get("path") or ""
     i = c.get("instance") or ""
@@ -106,16 +152,7 @@ def run(facts, rep, tier):
     sleeps = {}
     for bb, t in tcp.calls():
         if _path_is(t["callee"], "thread::sleep"):
-            r = du.root(t["args"][0])
-            secs = None
-            if r[0] == "call" and _path_is(r[1]["callee"], "Duration::from_secs"):
-                a = r[1]["args"][0]
-                if "const" in a and "int" in a["const"]:
-                    secs = int(a["const"]["int"])
-            elif r[0] == "call" and _path_is(r[1]["callee"], "Duration::from_millis"):
-                a = r[1]["args"][0]
-                if "const" in a and "int" in a["const"]:
-                    secs = int(a["const"]["int"]) / 1000.0
+            secs = _duration_secs(du, t["args"][0], facts)
             sleeps[bb] = secs
     good = {bb for bb, s in sleeps.items() if s is not None and 3 <= s <= 8}
     n = 0
